@@ -319,6 +319,47 @@ func c16Families(tier string) []explore.Family {
 		r.Class("cased/" + op)
 	}})
 
+	// code points an implementation might use as an internal stand-in or sentinel (noncharacters U+FDD0..U+FDEF, U+FFFE,
+	// U+FFFF, their supplementary cousins, private-use, controls, U+FFFD, the BOM), next to the HTML/URL specials: the
+	// escaping filters keep their laws and leave the code point alone
+	var odd []rune
+	for r := rune(0xFDD0); r <= 0xFDEF; r++ {
+		odd = append(odd, r)
+	}
+	odd = append(odd, 0xFFFE, 0xFFFF, 0x1FFFE, 0x1FFFF, 0x10FFFF, 0xE000, 0xF8FF, 0xFFFD, 0xFEFF, 0x0000, 0x0001, 0x001A, 0x001B, 0x007F, 0x0080, 0x009F, 0x2028, 0x200B, 0x00AD, 0xFFF9, 0xFFFC)
+	oddCtx := []string{"R&D %c x", "&amp; %c", "%c&lt;<>\"'", "a%cb", "%c", "&%c;", "&#%c;", "%c&", "x %c%c y & z"}
+	fams = append(fams, explore.Family{Name: "escaping-next-to-odd-code-points", Count: int64(len(odd) * len(oddCtx)), Run: func(i int64, r *explore.Rec) {
+		cp, ctx := odd[int(i)%len(odd)], oddCtx[int(i)/len(odd)]
+		s := strings.ReplaceAll(ctx, "%c", string(cp))
+		c := c16Case{r, "odd-code-point", func() any {
+			return map[string]any{"s": strconv.QuoteToASCII(s), "code_point": fmt.Sprintf("U+%04X", cp)}
+		}}
+		r.Eval()
+		r.Transition()
+		const sep = "\x1e"
+		o := c16Render("{{ s | escape_once }}"+sep+"{{ s | escape_once | escape_once }}"+sep+"{{ s | escape }}"+sep+"{{ s | url_encode | url_decode }}"+sep+"{{ s | size }}"+sep+"{{ s | append: 'Q' | remove: 'Q' }}"+sep+"{{ s | upcase | downcase | size }}", map[string]any{"s": s})
+		if !c.ok(o) {
+			return
+		}
+		p := strings.Split(o.Out, sep)
+		switch {
+		case len(p) != 7:
+			r.Violation("wrong:odd-code-point", c.desc(), "seven results", strconv.QuoteToASCII(o.Out))
+		case p[0] != p[1]:
+			r.Violation("wrong:escape_once-not-idempotent", c.desc(), strconv.QuoteToASCII(p[0]), strconv.QuoteToASCII(p[1]))
+		case strings.ContainsAny(p[2], "<>'\"") || html.UnescapeString(p[2]) != s:
+			r.Violation("wrong:escape", c.desc(), "no raw specials and unescaping gives the input back", strconv.QuoteToASCII(p[2]))
+		case html.UnescapeString(p[0]) != html.UnescapeString(s) || strings.Count(p[0], string(cp)) != strings.Count(s, string(cp)):
+			r.Violation("wrong:escape_once", c.desc(), "the same text with the same odd code points", strconv.QuoteToASCII(p[0]))
+		case p[3] != s:
+			r.Violation("wrong:url-roundtrip", c.desc(), strconv.QuoteToASCII(s), strconv.QuoteToASCII(p[3]))
+		case p[4] != strconv.Itoa(len(runes(s))) || p[5] != s:
+			r.Violation("wrong:odd-code-point:size-or-remove", c.desc(), strconv.Itoa(len(runes(s)))+" / unchanged", strconv.QuoteToASCII(p[4]+" / "+p[5]))
+		}
+		c.utf8(s, o)
+		r.Class("odd-code-point")
+	}})
+
 	fams = append(fams, explore.Family{Name: "concat", Count: int64(NS * len(T)), Run: func(i int64, r *explore.Rec) {
 		s, t := S[int(i)%NS], T[int(i)/NS]
 		r.Eval()
